@@ -97,5 +97,5 @@ SPEC = dict(
                'configuration of the A_HAVE_* switches and both real widths, so that both the libm-backed and the fallback body of each function are executed. '
                'Inputs are unbounded; stratified random sampling with explicit cut/pole exclusion is the reachable level.',
     level_note='trusted: libquadmath, the finite-difference condition estimate, the per-function cut table in harness/h_complex.c',
-    technique='differential testing against libquadmath per build configuration over the whole normal argument range (cut/pole exclusion, overflow threshold, lattice points), ASan/UBSan',
+    technique='differential testing against libquadmath per build configuration over the whole normal argument range (cut/pole exclusion, overflow threshold, lattice points), ASan/UBSan; strength-3 covering array over the 23 build switches and build configurations derived from nested preprocessor conditionals',
 )
